@@ -97,7 +97,7 @@ def main():
         for var in sorted(os.listdir(os.path.join(seedroot, e))):
             if os.path.exists(os.path.join(seedroot, e, var, "patch.diff")):
                 jobs.append((sid, var))
-    with cf.ThreadPoolExecutor(max_workers=5) as ex:
+    with cf.ThreadPoolExecutor(max_workers=8) as ex:
         futs = {ex.submit(confirm, seedroot, s, v, base): (s, v) for s, v in jobs}
         for f in cf.as_completed(futs):
             s, v = futs[f]
